@@ -143,18 +143,17 @@ CLAIMED.update({
         technique='Lean 4 proof (invariant + decision logic) + history correspondence + file oracle',
         design='§5 C18'),
     'C20': dict(
-        text='Theorems rejected_leaves_objects, later_copy_numbers_unaffected, records_unchanged_item/origin: a rejected '
-             'add_* call (before or after registration) changes no object, origin, copy number or header origin, and '
-             'the records written afterwards are unchanged. Tie: history correspondence with rejected calls of both '
-             'kinds; oracle: the file of a history equals (content-wise) the file of the same history without the '
-             'rejected calls, and writability is the same. history_without_rejected_calls: for every history the objects '
-             '(origins, copy numbers), header origins and set records equal those of the history without its rejected '
-             'calls, provided no add_origin is rejected and logical files name different sets; two witness theorems show '
-             'neither proviso can be dropped (they are the two known findings). Streams: rejected calls carrying data, '
-             'failed writes followed by a correct one.',
-        note='PARTIAL: the order of set records and the failed-write half are oracle-only. KNOWN FINDINGS: rejected call '
-             'naming another logical file\'s set; rejected add_origin that created its set first.',
-        technique='Lean 4 proof (simulation invariant over whole histories) + history correspondence + differential oracle',
+        text='Theorems rejected_call_is_identity (a rejected add_* call, before or after registration, is the identity on the '
+             'whole state of the add_* state machine: objects, origins, copy numbers, header origins, set registries), '
+             'history_without_rejected_calls (for EVERY history, unconditionally: the state equals that of the history '
+             'without its rejected calls) and later_files_unaffected (hence writability and the set records of every '
+             'logical file, order included). Tie: history correspondence with rejected calls of both kinds through every '
+             'logical file; oracle: the file of a history equals byte for byte the file of the same history without the '
+             'rejected calls, and writability is the same. Streams: rejected calls carrying data, failed writes followed '
+             'by a correct one, refused-then-corrected objects.',
+        note='PARTIAL: the failed-write half is oracle-only. The two former known findings (set key left behind by a '
+             'rejected call) are repaired in /repo (fix 492e4db) and the provisos they forced on the theorem are gone.',
+        technique='Lean 4 proof (step identity + induction over whole histories) + history correspondence + differential oracle',
         design='§5 C20'),
 })
 
